@@ -355,7 +355,7 @@ def drv_law(ctx, k, rng):
         bud = budget(tt) if budget is not None else np.zeros_like(tt)
         z1 = moms[nm].z_mean(want, bud) if stat == "mean" else moms[nm].z_var(want, bud)
         ctx.seen(mon)
-        sig = (model, via, str(dtype), label, k % len(CONFIGS))
+        sig = (model, via, str(dtype), label, repr(sorted((kk, round(vv, 6) if isinstance(vv, float) else vv) for kk, vv in c.items())))
         if bool((np.abs(z1) <= Z).all()):
             ctx.ok(mon, sig=sig, n=len(idx))
             continue
@@ -389,6 +389,49 @@ def drv_law(ctx, k, rng):
     if k < 6:
         ctx.sample({"driver": "law", "model": model, "via": via, "config": c, "paths_stage1": n1, "time_indices": idx,
                     "stats": {nm: {"mean": moms[nm].mean().tolist(), "var": moms[nm].var().tolist()} for nm in names}})
+
+
+def random_cfg(rng):
+    """A random configuration in moderate ranges (so that the sample variance is a well-behaved statistic: sigma sqrt(T) <= 0.6)."""
+    model = pick(rng, ["gbm", "brownian", "merton", "kou", "cir", "vasicek", "heston", "localvol"])
+    dt = float(pick(rng, [1 / 250, 1 / 52, 1 / 12, 0.05]))
+    T = int(rng.integers(3, 30))
+    hor = (T - 1) * dt
+    smax = min(0.8, 0.6 / math.sqrt(hor))
+    sigma = float(rng.uniform(0.05, smax))
+    mu = float(rng.uniform(-0.3, 0.3))
+    s0 = float(np.exp(rng.uniform(-1, 1)))
+    if model == "gbm":
+        return model, dict(sigma=sigma, mu=mu, dt=dt, T=T, s0=s0)
+    if model == "brownian":
+        return model, dict(sigma=sigma, mu=mu, dt=dt, T=T, s0=float(rng.uniform(-2, 2)))
+    if model == "merton":
+        js = float(rng.uniform(0.01, 0.1))
+        lam = float(rng.uniform(0, min(100.0, 0.2 / (js * js * hor))))
+        return model, dict(lam=lam, jm=float(rng.uniform(-0.08, 0.08)), js=js, sigma=sigma, mu=mu, dt=dt, T=T, s0=s0)
+    if model == "kou":
+        up, dn = float(rng.uniform(0.01, 0.08)), float(rng.uniform(0.01, 0.1))
+        lam = float(rng.uniform(0, min(60.0, 0.1 / ((up * up + dn * dn) * hor))))
+        return model, dict(lam=lam, up=up, dn=dn, p=float(pick(rng, [0.0, 0.2, 0.5, 0.8, 1.0, float(rng.random())])), sigma=sigma, mu=mu, dt=dt, T=T, s0=s0)
+    kappa, theta = float(rng.uniform(0.2, 5.0)), float(rng.uniform(0.01, 0.09))
+    if model == "cir":
+        return model, dict(kappa=kappa, theta=theta, sigma=float(rng.uniform(0.05, 1.2)), v0=float(theta * np.exp(rng.uniform(-1.5, 1.0))), dt=dt, T=T)
+    if model == "vasicek":
+        return model, dict(kappa=kappa, theta=float(rng.uniform(-0.02, 0.08)), sigma=float(rng.uniform(0.005, 0.1)), r0=float(rng.uniform(-0.02, 0.12)), dt=dt, T=T)
+    if model == "heston":
+        dt = float(pick(rng, [1 / 250, 1 / 52]))
+        return model, dict(kappa=kappa, theta=theta, sigma=float(rng.uniform(0.05, 0.9)), rho=float(rng.uniform(-0.95, 0.95)), v0=float(theta * np.exp(rng.uniform(-1.0, 0.7))),
+                           s0=s0, dt=dt, T=T)
+    return model, dict(kind=pick(rng, ["const", "smile", "time"]), dt=dt, T=T, s0=s0)
+
+
+def drv_law_random(ctx, k, rng):
+    model, c = random_cfg(rng)
+    CONFIGS.append((model, c))
+    try:
+        drv_law(ctx, len(CONFIGS) - 1 + (len(CONFIGS) if rng.random() < 0.5 else 0), rng)
+    finally:
+        CONFIGS.pop()
 
 
 def drv_random(ctx, k, rng):
@@ -440,5 +483,6 @@ DRIVERS = [
     ("witness", 1, 1, drv_witness),
     ("pathwise", 120, 5000, drv_pathwise),
     ("law", len(CONFIGS), 4 * len(CONFIGS), drv_law),
+    ("law_random", 8, 160, drv_law_random),
     ("random", 30, 600, drv_random),
 ]
